@@ -907,7 +907,9 @@ NOTES = {
         'needs a client that sends two register messages on one connection '
         '(dawgie.pl.worker.cluster.execute sends one): Hand._reg appends the '
         'connection to farm._workers once per message, dispatch pops it '
-        'twice, so the second task goes to a worker that already holds one'
+        'twice, so the second task goes to a worker that already holds one '
+        '(present on the pinned tree; gone once _reg appends only when the '
+        'connection is not listed yet)'
     ),
     'stale-reregistration': (
         'same root cause, weaker reading: the connection registered with '
